@@ -157,6 +157,26 @@ def run(case):
                 c.close(f"{lab}/values={vals}/scale={scale_}", "resultant of the body force vector", f[gm].sum(0), scale_ * np.array(v[:nd]) * V, max(abs(scale_) * V, 1e-9))
                 if item.assemble.multiplier != -1.0:
                     c.bad(f"{lab}/multiplier", "a load enters the residual with multiplier -1", item.assemble.multiplier, -1.0)
+        # update histories: items created with one value (integers, floats, zeros) and then updated (as a Step ramp does), every
+        # ordered pair and triple of values: the resultant must follow the LAST value given
+        gm = geometry_nodes(case["mesh"], mesh)
+        values = [[0, 0, 0], [1, -2, 3], [0.25, -0.75, 0.5], [0.0, 0.0, -9.81], np.array([2, 0, 1])]
+        for seq in list(itertools.permutations(range(len(values)), 2)) + [(0, 2, 1), (1, 3, 0), (4, 2, 3)]:
+            for lab in ("force", "gravity"):
+                def cut(vv):
+                    vv = list(vv)
+                    return vv[:nd] if case["fk"] != "axi" else [vv[0], vv[1], 0]
+
+                v0 = cut(values[seq[0]])
+                item = fem.SolidBodyForce(field, values=v0, scale=1.5) if lab == "force" else fem.SolidBodyGravity(field, gravity=v0, density=1.5)
+                item.assemble.vector(field)
+                for k in seq[1:]:
+                    item.update(cut(values[k]))
+                    c.trans += 1
+                r = item.assemble.vector(field).toarray()[:, 0]
+                f = nodal(field, r)
+                last = np.array(cut(values[seq[-1]]), dtype=float)[:nd]
+                c.close(f"{lab}/update-history={[list(map(float, values[i])) for i in seq]}", "resultant of the body force after update() = scale x LAST values x volume", f[gm].sum(0), 1.5 * last * V, max(1.5 * V, 1e-9))
         return c.result(dict(case=case["key"], volume=V))
     if kind == "mass":
         mesh, region, field = make_field(case["mesh"], case["member"], case["fk"], seed)
